@@ -480,6 +480,15 @@ pub fn gate_lanes(role: Role) -> Vec<(i32, Option<Point>, u64)> {
     }
 }
 
+/// (tid, waiting point, arrivals) of every lane, whatever its role.
+pub fn gate_all_lanes() -> Vec<(i32, Option<Point>, u64)> {
+    let g = gate_lock();
+    match g.as_ref() {
+        Some(gt) => gt.lanes.iter().map(|(t, l)| (*t, l.waiting.clone(), l.arrivals)).collect(),
+        None => vec![],
+    }
+}
+
 pub fn gate_grant(tid: i32, n: u32) {
     let mut g = gate_lock();
     if let Some(gt) = g.as_mut() {
